@@ -3124,7 +3124,8 @@ func (a *Association) processFastRetransmission( //nolint:gocognit
 						a.inFastRecovery = true
 						a.fastRecoverExitPoint = htna
 						a.ssthresh = max32(a.CWND()/2, 4*a.MTU())
-						a.setCWND(a.ssthresh)
+						// the 4*MTU floor is one of ssthresh: a loss never opens a smaller cwnd
+						a.setCWND(min(a.CWND(), a.ssthresh))
 						a.partialBytesAcked = 0
 						a.willRetransmitFast = true
 
